@@ -16,7 +16,7 @@ OPTS = {'quick': {'selfcheck_mod': 8, 'budget_s': 280, 'max_paths_per_case': 400
 STEP_LIMIT = 3_000_000
 BOUNDS = {
     'quick': '16 hand-written bodies (conjunction, disjunction, not, cut, arithmetic, print of a bound variable, list patterns, helper rules u/2 and w/1 with their own variables) plus the 136 '
-             'one- and two-goal bodies of the C01 menu, rule t(V1) :- BODY, queries t(Q) and t(b); every variable of every clause and of the query is named "$" + c with c a solver variable over {X, Y, Z, W}, '
+             'one- and two-goal bodies of the C01 menu, rule t(V1) :- BODY, queries t(Q) and t(b); every variable of every clause and of the query is named "$" + c (+ a suffix `_1`, `_2`, `2` in a second naming pattern) with c a solver variable over {X, Y, Z, W}, '
              'constrained only to be injective within its clause: the solver enumerates every coincidence pattern of names across clauses and with the query (capture, all-same, all-different); '
              'answers (up to renaming of unbound variables) and output must equal those of the same program with fixed distinct names, run in the same path',
     'thorough': 'all three-goal bodies of the C01 menu as well',
@@ -26,13 +26,16 @@ ASSUMPTIONS = ['the per-clause VarMap is the modelled HashMap with symbolic keys
 
 A1, A2, A3, A4, A5, Q1 = V('A1'), V('A2'), V('A3'), V('A4'), V('A5'), V('Q1')   # placeholders: renamed per case
 
-HELP = [(C('u', A3, A4), AND(gc('r', A3, A5), gc('q', A5), U(A4, A5))), (C('w', A3), OR(gc('p', A3), gc('u', A3, A4)))]
+HELP = [(C('u', A3, A4), AND(gc('r', A3, A5), gc('q', A5), U(A4, A5))), (C('w', A3), OR(gc('p', A3), gc('u', A3, A4))),
+        (C('tl', L(A3, tail=A4), A4), None), (C('hd', L(A3, tail=A4), A3), gc('p', A3))]
 BODIES = [
     AND(gc('p', A1), gc('r', A1, A2)), OR(gc('q', A1), gc('r', A1, A2)), AND(gc('u', A1, A2), gc('p', A1)), AND(gc('r', A1, A2), gc('u', A2, A1)),
     AND(gc('p', A1), NOT(gc('r', A1, A2))), AND(gc('r', A2, A1), gb('!'), gc('p', A1)), AND(gc('n', A2), U(A1, F('add', A2, I(1)))),
     AND(gc('r', A1, A2), gb('print', A2), gb('nl')), AND(gc('w', A1), gc('w', A2), gc('eq', A1, A2)), gc('member', A1, L(A('a'), A2)),
     AND(gc('l', L(A1, tail=A2))), AND(gc('app', A2, L(A1), L(A('a'), A('b')))), OR(AND(gc('p', A1), gc('u', A1, A2)), gc('q', A1)),
     AND(U(A2, L(A1, A('k'))), gc('member', A1, A2), gc('p', A1)), AND(gc('u', A2, A1)), AND(gc('w', A1), NOT(gc('u', A1, A2))),
+    AND(gc('tl', L(A('a'), tail=A2), A1)), AND(gc('tl', L(A('a'), A('b'), A('c')), A2), gc('tl', A2, A1)), AND(gc('hd', L(A1, tail=A2), A5), gc('tl', L(A5, tail=A2), L())),
+    AND(U(A2, L(A('b'), A('c'))), gc('tl', L(A('a'), tail=A2), A1)),
 ]
 
 
@@ -55,33 +58,36 @@ def cases(tier, seed):
         for qk in ('var', 'atom'):
             if i >= len(BODIES) and qk == 'atom' and i % 3: continue
             q = C('t', Q1) if qk == 'var' else C('t', A('b'))
-            out.append({'id': 'program %d: %s ?- %s' % (i, P.gtext(b), P.ttext(q)), 'body': i, 'q': qk, 'tier': tier})
+            for pat in ((0, 1) if i < len(BODIES) else (0,)) if qk == 'var' else (1,):
+                out.append({'id': 'program %d: %s ?- %s [names %d]' % (i, P.gtext(b), P.ttext(q), pat), 'body': i, 'q': qk, 'tier': tier, 'pat': pat})
     return out
 
 
 LETTERS = 'XYZW'
+SUFFIXES = ['', '_1', '_2', '2']
 
 
-def name_clause(m, clause, tag):
-    """give every variable of the clause the name "$" + symbolic letter, injective within the clause"""
+def name_clause(m, clause, tag, sfx=None):
+    """give every variable of the clause the name "$" + symbolic letter + suffix, injective within the clause;
+    sfx: dict placeholder -> suffix (the letters are solver variables, the suffix pattern is enumerated by the case)"""
     names = {}
     def go(t):
         if isinstance(t, tuple):
             if t and t[0] == 'var':
                 if t[2] not in names:
                     c = m.fresh('%s.%s' % (tag, t[2][1:]), 'char')
+                    suffix = (sfx or {}).get(t[2], '')
                     if isinstance(c, Sym):
                         m.assume(Sym(z3.Or([c.e == ord(x) for x in LETTERS]), 'bool'))
-                        for other in names.values():
-                            m.assume(Sym(c.e != (other.e if isinstance(other, Sym) else ord(other)), 'bool'))
-                    elif any((not isinstance(o, Sym)) and o == c for o in names.values()):
-                        raise ValueError('non-injective concrete naming')
-                    names[t[2]] = c
-                c = names[t[2]]
-                return ('var', 0, ('$', c) if isinstance(c, Sym) else '$' + c)
+                        for (other, osuf) in names.values():
+                            if osuf == suffix:
+                                m.assume(Sym(c.e != (other.e if isinstance(other, Sym) else ord(other)), 'bool'))
+                    names[t[2]] = (c, suffix)
+                c, suffix = names[t[2]]
+                return ('var', 0, ('$', c) + tuple(suffix) if isinstance(c, Sym) else '$' + c + suffix)
             return tuple(go(x) for x in t)
         return t
-    return go(clause), names
+    return go(clause), {k: v[0] for k, v in names.items()}
 
 
 def search(drv, clauses, query):
@@ -105,9 +111,15 @@ def run(drv, case):
         run0 = search(drv, base + test, query)
         named = []
         allnames = []
+        # naming pattern 1: every variable of a clause gets the same letter slot family "$V_1", "$V_2", ... (suffixes differ);
+        # pattern 0: plain one-letter names
         for ci, cl in enumerate(test):
-            nc, nm = name_clause(m, cl, 'c%d' % ci); named.append(nc); allnames.append(nm)
-        nq, qn = name_clause(m, query, 'q')
+            sfx = None
+            if case.get('pat'):
+                vs = sorted({v[2] for v in all_vars(cl)})
+                sfx = {v: SUFFIXES[1 + (k % 3)] for k, v in enumerate(vs)}
+            nc, nm = name_clause(m, cl, 'c%d' % ci, sfx); named.append(nc); allnames.append(nm)
+        nq, qn = name_clause(m, query, 'q', {'$Q1': '_1'} if case.get('pat') else None)
         run1 = search(drv, base + named, nq)
     except ScenarioEnd as e:
         raise Violation('search-%s' % e.why[0], '%s: %s' % (desc, e.why[1][:200]))
@@ -131,6 +143,15 @@ def run(drv, case):
     except Exception:
         pass
     return {'tags': tags, 'note': desc}
+
+
+def all_vars(t, acc=None):
+    if acc is None: acc = []
+    if isinstance(t, tuple):
+        if t and t[0] == 'var': acc.append(t)
+        else:
+            for x in t: all_vars(x, acc)
+    return acc
 
 
 def strip_names(t):
